@@ -265,7 +265,26 @@ func checkRegistryAccessors(c *Ctx, res *report.Result, rule string) {
 					return false
 				}
 				_, fld, okf := flow.FieldLoadOf(mu.Map)
-				return okf && fld == a.field && isParam(mu.Key) && isParam(mu.Value)
+				if !okf || fld != a.field || !isParam(mu.Key) {
+					return false
+				}
+				if isParam(mu.Value) {
+					return true
+				}
+				// an entry struct built from the parameters (the value together with its owner)
+				if ld, isLd := mu.Value.(*ssa.UnOp); isLd && ld.Op == token.MUL {
+					if al, isAl := ld.X.(*ssa.Alloc); isAl {
+						fields, multi := flow.FieldStores(al)
+						okAll := len(fields) > 0
+						for name, v := range fields {
+							if multi[name] || !isParam(v) {
+								okAll = false
+							}
+						}
+						return okAll
+					}
+				}
+				return false
 			}
 			r := flow.FindPath(flow.Point{Block: f.Blocks[0]}, flow.IsReturn, isStore, nil)
 			res.Check(!r.Found, rule, a.fn+" stores its value under its key in "+a.field, fnPos(c.Prog, f), "every path passes "+a.field+"[key] = value (both parameters)", "the accessor can return without registering (path "+flow.BlockPath(r.Via)+"): the newest incarnation's channel / cancel function / receiver is never found by the others")
